@@ -158,12 +158,12 @@ fn io_faults(ctx: &mut Ctx, t: bool) {
             let r0 = match guard(|| build(kind, &keys, &vals, Fault::None, Fault::None, false, 2)) {
                 Outcome::Ret(r) => r,
                 Outcome::Panic(m) => {
-                    ctx.violation("C17|VBuilder::<fault-free build>|panic", format!("kind={kind:?} n={n}: {m}"));
+                    ctx.violation("C17|VBuilder::<fault-free-build>|panic", format!("kind={kind:?} n={n}: {m}"));
                     continue;
                 }
             };
             if r0.out != Ok(0) {
-                ctx.violation("C17|VBuilder::<fault-free build>|wrong-result", format!("kind={kind:?} n={n}: {:?}", r0.out));
+                ctx.violation("C17|VBuilder::<fault-free-build>|wrong-result", format!("kind={kind:?} n={n}: {:?}", r0.out));
                 continue;
             }
             let passes = r0.kstats.reads.len();
@@ -306,12 +306,12 @@ fn line_source_faults(ctx: &mut Ctx, t: bool) {
             let (r0, _, passes) = match guard(|| run(None)) {
                 Outcome::Ret(x) => x,
                 Outcome::Panic(m) => {
-                    ctx.violation("C17|VBuilder::<fault-free build>|panic", format!("LineLender source n={n}: {m}"));
+                    ctx.violation("C17|VBuilder::<fault-free-build>|panic", format!("LineLender source n={n}: {m}"));
                     continue;
                 }
             };
             if r0 != Ok(0) {
-                ctx.violation("C17|VBuilder::<fault-free build>|wrong-result", format!("LineLender source n={n} filter={filter}: {r0:?}"));
+                ctx.violation("C17|VBuilder::<fault-free-build>|wrong-result", format!("LineLender source n={n} filter={filter}: {r0:?}"));
                 continue;
             }
             let mut ps: Vec<usize> = (0..passes.min(if t { 6 } else { 3 })).collect();
